@@ -4,6 +4,7 @@
 -/
 import PercevalModel.Lemmas.C01
 import PercevalModel.Lemmas.C01Reg
+import PercevalModel.Lemmas.C01More
 import PercevalModel.Num.GQ
 
 open Matrix
@@ -939,6 +940,154 @@ theorem copy_raises_on_shared_undefined_parameter :
 
 end witnesses
 
+/-! ### wave 7: what the rank discipline and `SafeRun` exclude (witnesses, for every choice of ranks)
+
+The note "every acyclic history of the real API is a ranked history" is FALSE for the model as it is, for two
+reasons, each with a witness that holds for every choice of the ghost ranks (both histories are accepted by the
+real API and their reference graph is acyclic; checked by hand on /repo):
+ * `copy()` gives the new entry the rank of the original, although the copy holds everything by value;
+ * `merge` of a non-empty circuit demands `rank j < rank i` although it stores no reference to `j`.
+So the theorems "after ANY history" quantify over the ranked histories only, a strict subset of the acyclic ones
+(`ranked_history_of_acyclic_plain` below gives the converse for histories of new / leaf / nest / barrier). -/
+
+section rankWitnesses
+
+/-- `A = Circuit(2); C = A.copy(); P = Circuit(2); P.add(0, C); A.add(0, P)`: acyclic (A -> P -> C), but the copy
+has the rank of `A`, so whatever ranks `A` and `P` were given, if `P.add(0, C)` is accepted then `A.add(0, P)` is
+rejected by the model. -/
+theorem rank_discipline_rejects_nesting_a_copy {R : Type} [Zero R] [One R] (r0 r2 : ℕ) (φ : R → R) :
+    let h := exec (Heap.empty : Heap R) [.new 2 r0, .copy 0 φ, .new 2 r2]
+    h.size = 3 ∧
+      ((Op.nest (R := R) 2 1 0).ok h = true →
+        (Op.nest (R := R) 0 2 0).ok (step h (.nest 2 1 0)) = false) := by
+  intro h
+  have e0 : h.rank 0 = r0 := rfl
+  have e1 : h.rank 1 = r0 := rfl
+  have e2 : h.rank 2 = r2 := rfl
+  refine ⟨rfl, ?_⟩
+  intro hok
+  have hr : h.rank 1 < h.rank 2 := by
+    simp only [Op.ok, Bool.and_eq_true, decide_eq_true_eq] at hok
+    exact hok.1.2
+  have e0' : (step h (.nest 2 1 0)).rank 0 = r0 := by
+    simp only [step, hok, if_true, applyOp]; rfl
+  have e2' : (step h (.nest 2 1 0)).rank 2 = r2 := by
+    simp only [step, hok, if_true, applyOp]; rfl
+  simp only [Op.ok, e0', e2']
+  rw [e1, e2] at hr
+  simp
+  intro _ _ h'
+  omega
+
+/-- `A = Circuit(2); B = Circuit(2); B.add(0, BS()); A.add(0, B, merge=True); B.add(0, A)`: acyclic (`A` holds the
+leaf by value, no reference to `B`), but the model's `merge` demands `rank B < rank A`, so the later nest of `A`
+into `B` is rejected whatever the ranks. -/
+theorem rank_discipline_rejects_nest_after_merge {R : Type} [Zero R] [One R] (rA rB : ℕ)
+    (U : Matrix (Fin 2) (Fin 2) R) :
+    let h := exec (Heap.empty : Heap R) [.new 2 rA, .new 2 rB, .leaf 1 0 2 U]
+    h.items 1 = [(0, .val (.leaf 2 U))] ∧
+      ((Op.merge (R := R) 0 1 0).ok h = true →
+        (Op.nest (R := R) 1 0 0).ok (step h (.merge 0 1 0)) = false ∧
+        (step h (.merge 0 1 0)).items 0 = [(0, .val (.leaf 2 U))]) := by
+  intro h
+  have e0 : h.rank 0 = rA := rfl
+  have e1 : h.rank 1 = rB := rfl
+  have hit : h.items 1 = [(0, .val (.leaf 2 U))] := rfl
+  refine ⟨hit, ?_⟩
+  intro hok
+  have hr : h.rank 1 < h.rank 0 := by
+    simp only [Op.ok, Bool.and_eq_true, decide_eq_true_eq] at hok
+    exact hok.1.2
+  have hs : step h (.merge 0 1 0) = h.push 0 [(0 + 0, .val (.leaf 2 U))] := by
+    simp only [step, hok, if_true, applyOp, hit]; rfl
+  rw [hs]
+  have e0' : (h.push 0 [(0 + 0, HItem.val (.leaf 2 U))]).rank 0 = rA := rfl
+  have e1' : (h.push 0 [(0 + 0, HItem.val (.leaf 2 U))]).rank 1 = rB := rfl
+  refine ⟨?_, rfl⟩
+  simp only [Op.ok, e0', e1']
+  rw [e0, e1] at hr
+  simp
+  intro _ _ h'
+  omega
+
+end rankWitnesses
+
+/-! the converse where it holds: the unranked machine `stepU` / `execU` (Lemmas/C01More.lean: the assertions of the
+real `add`, no rank test) restricted to new / leaf / nest / barrier -/
+
+/-- Every history of `Circuit(m)` / `add(elementary)` / `add(circuit, merge=False)` / `barrier()` run WITHOUT
+the rank discipline (only the assertions the real `add` makes) whose final reference graph is acyclic —
+`ρ` decreases along every reference present at the end — is a ranked history: re-labelling the ghost ranks of
+the `new` operations by `ρ` makes the ranked machine accept exactly the same operations and reach the same pool. -/
+theorem ranked_history_of_acyclic_plain [Zero R] [One R] (ops : List (Op R)) (hpl : ∀ op ∈ ops, op.Plain)
+    (ρ : ℕ → ℕ)
+    (hacy : ∀ i j off, i < (execU (Heap.empty : Heap R) ops).size →
+      (off, HItem.ref j) ∈ (execU (Heap.empty : Heap R) ops).items i → ρ j < ρ i) :
+    exec (Heap.empty : Heap R) (relabel ρ Heap.empty ops) = (execU Heap.empty ops).rerank ρ := by
+  have := exec_relabel ρ ops Heap.empty hpl hacy
+  rwa [rerank_empty] at this
+
+/-- … hence the "after ANY history" theorems hold for every acyclic plain history of the unranked machine -/
+theorem eval_after_any_acyclic_plain_history {S : Type} [CommRing R] [CommRing S] (φ : R →+* S)
+    (ops : List (Op R)) (hpl : ∀ op ∈ ops, op.Plain) (ρ : ℕ → ℕ)
+    (hacy : ∀ i j off, i < (execU (Heap.empty : Heap R) ops).size →
+      (off, HItem.ref j) ∈ (execU (Heap.empty : Heap R) ops).items i → ρ j < ρ i) (i : ℕ) :
+    let h := (execU (Heap.empty : Heap R) ops).rerank ρ
+    h.Ok ∧ (snapshot h i).WF ∧
+      eval φ h i = prodFlat (h.msize i) (Flat.mapC φ (flatten (snapshot h i))) ∧
+      Flat.Fits (flatten (snapshot h i)) (h.msize i) := by
+  intro h
+  have e : h = exec (Heap.empty : Heap R) (relabel ρ Heap.empty ops) :=
+    (ranked_history_of_acyclic_plain ops hpl ρ hacy).symm
+  rw [e]
+  exact ⟨exec_ok _, eval_after_any_history φ _ i⟩
+
+/-- non-vacuity: a history run without ranks (all `new` carry rank 0) with growth after nesting; `ρ` = 1 on
+entry 0, 0 elsewhere -/
+def exPlain : List (Op GQ) := [.new 3 0, .new 2 0, .nest 0 1 1, .leaf 1 0 2 swap2, .barrier 0]
+
+example : (∀ op ∈ exPlain, op.Plain) ∧
+    (∀ i j off, i < (execU (Heap.empty : Heap GQ) exPlain).size →
+      (off, HItem.ref j) ∈ (execU (Heap.empty : Heap GQ) exPlain).items i →
+        (fun k => if k = 0 then 1 else 0 : ℕ → ℕ) j < (fun k => if k = 0 then 1 else 0 : ℕ → ℕ) i) ∧
+    ((execU (Heap.empty : Heap GQ) exPlain).items 0).length = 2 := by
+  refine ⟨?_, ?_, by decide +kernel⟩
+  · intro op hop
+    simp only [exPlain, List.mem_cons, List.not_mem_nil, or_false] at hop
+    rcases hop with rfl | rfl | rfl | rfl | rfl <;> exact True.intro
+  · intro i j off hi hm
+    have hs : (execU (Heap.empty : Heap GQ) exPlain).size = 2 := by decide +kernel
+    have h0 : (execU (Heap.empty : Heap GQ) exPlain).items 0 =
+        [(1, .ref 1), (0, .val (barrierItem 3))] := rfl
+    have h1 : (execU (Heap.empty : Heap GQ) exPlain).items 1 = [(0, .val (.leaf 2 swap2))] := rfl
+    rw [hs] at hi
+    have : i = 0 ∨ i = 1 := by omega
+    rcases this with rfl | rfl
+    · rw [h0] at hm; simp at hm; obtain ⟨_, rfl⟩ := hm; simp
+    · rw [h1] at hm; simp at hm
+
+/-- `registry_exact` is sufficient, not necessary: growth after nesting that only adds an already registered
+parameter is not a `SafeRun`, and still the registry of every pool entry is exactly the set of reachable
+parameters. -/
+def exRegrow : List (ROp ℕ ℕ) :=
+  [.new 2 1, .new 1 0, .leaf 1 0 1 [vx] (zeroU 1), .nest 0 1 0, .leaf 1 0 1 [vx] (zeroU 1)]
+
+theorem registry_exact_without_safeRun :
+    CleanRun st0 exRegrow ∧ ¬ SafeRun st0 exRegrow ∧ (rexec st0 exRegrow).size = 2 ∧
+      ∀ i, i < 2 → ∀ v, v ∈ (rexec st0 exRegrow).reg i ↔ Occ (rexec st0 exRegrow).pit i v := by
+  refine ⟨by decide +kernel, by decide +kernel, by decide +kernel, ?_⟩
+  intro i hi v
+  have hinv : RInv (rexec st0 exRegrow) := rexec_inv exRegrow _ (empty_inv _ _)
+  rw [← mem_occ_iff hinv i v]
+  have h0 : (rexec st0 exRegrow).reg 0 = [vx] := by decide +kernel
+  have h1 : (rexec st0 exRegrow).reg 1 = [vx] := by decide +kernel
+  have o0 : (rexec st0 exRegrow).occ 0 = [vx, vx] := by decide +kernel
+  have o1 : (rexec st0 exRegrow).occ 1 = [vx, vx] := by decide +kernel
+  have : i = 0 ∨ i = 1 := by omega
+  rcases this with rfl | rfl
+  · rw [h0, o0]; simp
+  · rw [h1, o1]; simp
+
 /-
   Outside the model (see manifest.d/C01.json):
   * validated only: the symbolic path — `compute_unitary(use_symbolic=True)` is compared, after numeric evaluation
@@ -950,8 +1099,13 @@ end witnesses
     for a by-value sub-tree of a copy behaves like the nested tree (`copyNames_eq` is the reason);
     `copy(subs=[Parameter…])` / `copy(subs={"name": v})` substitute nothing (string keys never match sympy symbols):
     modelled as `σ = ∅`, exercised on every run;
-  * stated, not proved: every acyclic history of the real API is a ranked history;
-  * `registry_exact` is a sufficient condition with necessity witnesses, not an equivalence for every history;
+  * ranked vs acyclic histories: PROVED for histories of new / leaf / nest / barrier (`ranked_history_of_acyclic_plain`,
+    `eval_after_any_acyclic_plain_history`); FALSE in general for the model as it is — `copy()` inherits the rank of the
+    original and `merge` of a non-empty circuit demands `rank j < rank i` (`rank_discipline_rejects_nesting_a_copy`,
+    `rank_discipline_rejects_nest_after_merge`): the ranked histories are a strict subset of the acyclic ones; not proved:
+    the converse for histories with merge / copy under a weaker rank test (would need a change of `Op.ok` / `applyOp`);
+  * `registry_exact` is a sufficient condition with necessity witnesses, not an equivalence for every history
+    (`registry_exact_without_safeRun`: an unsafe history whose registries are exact);
   * not modelled: `Expression` parameters, bounds and periodic wrapping of `Parameter` (C14), `fix_value`,
     `reset_parameters`, polarisation (C13), `inverse` (C11), `getitem` / `depths` / `ncomponents`, cyclic `add`
     (evaluation does not terminate).
